@@ -171,6 +171,48 @@ def split_obligations(ctx, eq, topo, sizes, segments):
             ctx.oblige(TRUE(len(reg.psi_vals) == 3 and reg.psi_vals[0] is pa and reg.psi_vals[1] is pb), "T13:%s_%s_divertor is gridded radially on [%s, %s2, SOL]" % (io, side, sec, sec))
 
 
+def run_torpex_setup_region(ctx):
+    """Isolated X-point (TORPEX): the nested `setupRegion` of TORPEXMagneticField.makeRegions, lifted
+    out unchanged, on recorder regions -- T7 for the fifth topology: the X-point is pinned at the
+    radial edge that IS the separatrix (`separatrix_radial_index` as the region ends up with it,
+    i.e. 1: between the two radial segments) at the X-point end of each leg (the end after the
+    optional reversal), the other end carries the wall vector, psi_vals = [segment below the
+    separatrix, segment above]."""
+    from hypnotoad.cases import torpex as TX
+    from vc import transform
+
+    xp = object()
+    log = []
+
+    class Reg:
+        def __init__(self, name):
+            self.name = name
+            self.xPointsAtStart, self.xPointsAtEnd = [None, None, None], [None, None, None]
+            self.wallSurfaceAtStart = self.wallSurfaceAtEnd = None
+            self.separatrix_radial_index = 0  # constructor default of EquilibriumRegion
+            self.psi_vals = None
+            self.reversed = 0
+
+        def reverse(self):
+            self.reversed += 1
+            log.append(("reverse", self.name, self.separatrix_radial_index))
+
+    names = ["leg_a", "leg_b"]
+    me = types.SimpleNamespace(regions={n: Reg(n) for n in names})
+    walls = {n: ("wall", n) for n in names}
+    f = transform.recompile(TX.TORPEXMagneticField.makeRegions, nested="setupRegion", extra_globals={"self": me, "xpoint": xp, "wall_vectors": walls}, lift=False)
+    f("leg_a", "P1", "P2", True)
+    f("leg_b", "Q1", "Q2", False)
+    with spec_mode():
+        for n, rev, pv in (("leg_a", True, ["P1", "P2"]), ("leg_b", False, ["Q1", "Q2"])):
+            r = me.regions[n]
+            ctx.oblige(TRUE(r.separatrix_radial_index == 1 and r.psi_vals == pv), "T7/TORPEX:%s: two radial segments, the separatrix between them (separatrix_radial_index = 1)" % n)
+            xend, wend = (r.xPointsAtEnd, r.xPointsAtStart) if rev else (r.xPointsAtStart, r.xPointsAtEnd)
+            ctx.oblige(TRUE([k for k, x in enumerate(xend) if x is xp] == [r.separatrix_radial_index] and all(x is None for x in wend)), "T7/TORPEX:%s: the X-point is pinned at the separatrix edge of its X-point end, nowhere else" % n)
+            ctx.oblige(TRUE((r.wallSurfaceAtStart, r.wallSurfaceAtEnd) == ((walls[n], None) if rev else (None, walls[n]))), "T10/TORPEX:%s: wall vector at the other end only" % n)
+            ctx.oblige(TRUE(r.reversed == (1 if rev else 0)), "%s reversed exactly when asked" % n)
+
+
 def make_pins_run(topo):
     def run(ctx):
         eq, info = tk.build_equilibrium(ctx, topo)
@@ -455,6 +497,9 @@ def build(S):
     with numpy_shimmed():
         for topo in tk.TOPOLOGIES:
             S.contract("topology[%s]" % topo, FNS[-1], make_run(topo), shape="structure concrete, all sizes symbolic Int", expected_exceptions=(ValueError,), raises_ok=refused_ok)
+        S.under_contract("hypnotoad.cases.torpex:TORPEXMagneticField.makeRegions")
+        S.extraction.append(dict(function="TORPEXMagneticField.makeRegions.setupRegion", sliced="nested def lifted out unchanged (free variables self, xpoint, wall_vectors supplied)"))
+        S.contract("X-point pins[isolated X-point, TORPEX]", "hypnotoad.cases.torpex:TORPEXMagneticField.makeRegions", run_torpex_setup_region, shape="two recorder legs (one reversed)")
         # connected double nulls whose two separatrices differ slightly (either X-point primary): every
         # segment touching a separatrix is put on the PRIMARY one, so that radial neighbours meet (T14)
         for topo in ("cdn_unbalanced", "cdn_upper_primary"):
